@@ -605,3 +605,8 @@ RULES = [
     Rule("C01.B8", rule_B8, floor=2, doc="start cell inside the grid"),
     Rule("C01.B9", rule_B9, floor=3, doc="delegating generators forward their arguments; percolation only adds edges"),
 ]
+
+from sa import dims as _dims  # noqa: E402
+
+RULES.append(Rule("C01.AX", _dims.make_rule("C01", "C01.AX"), floor=1,
+                  doc="axis-extent agreement: coordinate components are bounded by the extent of their own axis (E13)"))
